@@ -297,6 +297,22 @@ def preamble (os : Str) (content : Str) : Str :=
   let lines := splitIncl content
   (preambleLines (firstSuffix lines) os lines).flatten
 
+/-! ## proposed repairs
+
+The model follows the UNCHANGED code when all flags are `false`.  Each flag switches one port to the
+behaviour of one proposed fix (`/verif/fixes/C20-*.diff`); the check turns a flag on only when the
+corresponding finding is recorded as fixed, so the correspondence keeps comparing like with like. -/
+structure Fixes where
+  /-- fixes/C20-update-keeps-unrun-tests.diff: skipped / other-platform tests are written back -/
+  keepUnrun : Bool := false
+  /-- fixes/C20-update-one-correction-per-test.diff: one correction per test, not one per language -/
+  oneCorrection : Bool := false
+  /-- fixes/C20-update-keeps-suffix-and-preamble.diff: delimiters keep the file's suffix, leading text is kept -/
+  keepSuffixPreamble : Bool := false
+  /-- fixes/C20-format-sexp-quote-reset.diff: `format_sexp` leaves quote mode at the closing quote -/
+  quoteReset : Bool := false
+  deriving Repr, DecidableEq, Inhabited
+
 /-! ## `format_sexp` (lib/binding_rust/lib.rs) -/
 
 structure FState where
@@ -307,19 +323,21 @@ structure FState where
   deriving Repr
 
 /-- The `while let Some(c) = c_iter.next()` loop of `fetch_next_str`; `acc` is `next`, reversed. -/
-def fetchLoop : Str → Char → Bool → Str → (Str × Str × Char × Bool)
+def fetchLoop (qr : Bool) : Str → Char → Bool → Str → (Str × Str × Char × Bool)
   | [], q, sp, acc => (acc, [], q, sp)
   | c :: cs, q, sp, acc =>
-    if c == '\'' || c == '"' then fetchLoop cs c sp (c :: acc)
+    if c == '\'' || c == '"' then
+      let q' := if qr then (if q == '\x00' then c else if q == c then '\x00' else q) else c
+      fetchLoop qr cs q' sp (c :: acc)
     else if c == ' ' || (c == ')' && q != '\x00') then
       match cs with
-      | n :: cs' => if n == q then fetchLoop cs' '\x00' sp (n :: c :: acc) else (acc, cs, q, sp)
+      | n :: cs' => if n == q then fetchLoop qr cs' '\x00' sp (n :: c :: acc) else (acc, cs, q, sp)
       | [] => (acc, cs, q, sp)
     else if c == ')' then (acc, cs, q, true)
-    else fetchLoop cs q sp (c :: acc)
+    else fetchLoop qr cs q sp (c :: acc)
 
-def fetch (st : FState) : Option (Str × FState) :=
-  let (acc, rest, q, sp) := fetchLoop st.rest st.quote st.sawParen []
+def fetch (qr : Bool) (st : FState) : Option (Str × FState) :=
+  let (acc, rest, q, sp) := fetchLoop qr st.rest st.quote st.sawParen []
   let next := acc.reverse
   if rest.isEmpty && next.isEmpty then
     if sp then some (next, { rest := rest, quote := q, sawParen := false, didLast := st.didLast })
@@ -330,13 +348,13 @@ def fetch (st : FState) : Option (Str × FState) :=
 def indentStr (n : Nat) : Str := (List.replicate n [' ', ' ']).flatten
 
 /-- Main loop of `format_sexp`; `out` is `formatted`, reversed. -/
-def fmtLoop : Nat → FState → Nat → Bool → Str → Str
+def fmtLoop (qr : Bool) : Nat → FState → Nat → Bool → Str → Str
   | 0, _, _, _, out => out
   | fuel + 1, st, indent, hasField, out =>
-    match fetch st with
+    match fetch qr st with
     | none => out
     | some (s, st) =>
-      if s.isEmpty && indent > 0 then fmtLoop fuel st (indent - 1) hasField (')' :: out)
+      if s.isEmpty && indent > 0 then fmtLoop qr fuel st (indent - 1) hasField (')' :: out)
       else if s.head? == some '(' then
         let (indent, hasField, out) :=
           if hasField then (indent, false, out)
@@ -345,20 +363,20 @@ def fmtLoop : Nat → FState → Nat → Bool → Str → Str
             (indent + 1, hasField, out)
         let out := s.reverse ++ out
         if "(MISSING".toList.isPrefixOf s || "(UNEXPECTED".toList.isPrefixOf s then
-          match fetch st with
+          match fetch qr st with
           | none => out   -- `unwrap()` on `None` would panic; cannot happen before the end marker
           | some (s2, st) =>
-            if s2.isEmpty then fmtLoop fuel st 0 hasField (List.replicate indent ')' ++ out)
-            else fmtLoop fuel st indent hasField (s2.reverse ++ (' ' :: out))
-        else fmtLoop fuel st indent hasField out
+            if s2.isEmpty then fmtLoop qr fuel st 0 hasField (List.replicate indent ')' ++ out)
+            else fmtLoop qr fuel st indent hasField (s2.reverse ++ (' ' :: out))
+        else fmtLoop qr fuel st indent hasField out
       else if s.getLast? == some ':' then
         let out := ' ' :: (s.reverse ++ ((indentStr indent).reverse ++ ('\n' :: out)))
-        fmtLoop fuel st (indent + 1) true out
-      else fmtLoop fuel st indent hasField out
+        fmtLoop qr fuel st (indent + 1) true out
+      else fmtLoop qr fuel st indent hasField out
 
 /-- `format_sexp(sexp, 0)` -/
-def formatSexp (sexp : Str) : Str :=
-  (fmtLoop (sexp.length + 3) { rest := sexp } 0 false []).reverse
+def formatSexp (fx : Fixes) (sexp : Str) : Str :=
+  (fmtLoop fx.quoteReset (sexp.length + 3) { rest := sexp } 0 false []).reverse
 
 /-! ## `write_tests_to_buffer` -/
 
@@ -371,14 +389,15 @@ structure Correction where
   dlen : Nat
   deriving DecidableEq, Repr, Inhabited
 
-def writeOne (c : Correction) : Str :=
-  rep '=' c.hlen ++ ['\n'] ++ c.name ++ ['\n'] ++
+def writeOne (suf : Str) (c : Correction) : Str :=
+  rep '=' c.hlen ++ suf ++ ['\n'] ++ c.name ++ ['\n'] ++
   (if c.attrsStr.isEmpty then [] else c.attrsStr ++ ['\n']) ++
-  rep '=' c.hlen ++ ['\n'] ++ c.input ++ ['\n'] ++ rep '-' c.dlen ++ ['\n', '\n'] ++ trim c.output ++ ['\n']
+  rep '=' c.hlen ++ suf ++ ['\n'] ++ c.input ++ ['\n'] ++ rep '-' c.dlen ++ suf ++ ['\n', '\n'] ++ trim c.output ++ ['\n']
 
-def writeTests : List Correction → Str
+/-- `write_tests_to_buffer` (`suf = []`), resp. the proposed `write_tests_to_buffer_with_suffix`. -/
+def writeTests (suf : Str) : List Correction → Str
   | [] => []
-  | c :: cs => writeOne c ++ (cs.map fun c => '\n' :: writeOne c).flatten
+  | c :: cs => writeOne suf c ++ (cs.map fun c => '\n' :: writeOne suf c).flatten
 
 /-! ## the update branches of `run_tests` -/
 
@@ -404,51 +423,57 @@ def Entry.corr (e : Entry) (output : Str) : Correction :=
 
 /-- One iteration of `for (i, language_name) in attributes.languages` with `opts.update`:
 the correction pushed and whether the loop returns early (fail-fast). -/
-def updateLang (e : Entry) (a : Actual) : Correction × Bool :=
+def updateLang (fx : Fixes) (e : Entry) (a : Actual) : Correction × Bool :=
   match e.attrs.expect with
   | .error =>
-    (e.corr (if e.attrs.cst then e.output else formatSexp e.output), e.attrs.failFast)
+    (e.corr (if e.attrs.cst then e.output else formatSexp fx e.output), e.attrs.failFast)
   | _ =>
     let actual := if e.attrs.cst then a.cst else if e.hasFields then a.sexpFields else a.sexpPlain
     if actual == e.output then
-      (e.corr (if e.attrs.cst then actual else formatSexp e.output), false)
+      (e.corr (if e.attrs.cst then actual else formatSexp fx e.output), false)
     else
-      let expectedOut := if e.attrs.cst then e.output else formatSexp e.output
-      let actualOut := if e.attrs.cst then actual else formatSexp actual
+      let expectedOut := if e.attrs.cst then e.output else formatSexp fx e.output
+      let actualOut := if e.attrs.cst then actual else formatSexp fx actual
       if containsSub "ERROR".toList actual || containsSub "MISSING".toList actual then
         (e.corr expectedOut, e.attrs.failFast)
       else (e.corr actualOut, e.attrs.failFast)
 
-def updateLangs (orc : Oracle) (e : Entry) : List Str → List Correction → Step
+def updateLangs (fx : Fixes) (orc : Oracle) (e : Entry) : List Str → List Correction → Step
   | [], acc => .cont acc
   | l :: ls, acc =>
     match orc l e.input with
     | none => .err
     | some a =>
-      let (c, stop) := updateLang e a
-      if stop then .stop else updateLangs orc e ls (acc ++ [c])
+      let (c, stop) := updateLang fx e a
+      if stop then .stop
+      else updateLangs fx orc e ls (if fx.oneCorrection then (acc ++ [c]).take 1 else acc ++ [c])
 
 /-- `run_tests` on one `Example` with `opts.update`. -/
-def updateEntry (orc : Oracle) (e : Entry) : Step :=
-  if e.attrs.expect == .skip then .cont []
-  else if !e.attrs.platform then .cont []
-  else updateLangs orc e e.attrs.languages []
+def updateEntry (fx : Fixes) (orc : Oracle) (e : Entry) : Step :=
+  let unrun : List Correction :=
+    if fx.keepUnrun then [e.corr (if e.attrs.cst then e.output else formatSexp fx e.output)] else []
+  if e.attrs.expect == .skip then .cont unrun
+  else if !e.attrs.platform then .cont unrun
+  else updateLangs fx orc e e.attrs.languages []
 
 /-- `run_tests` over the children of a file group: `some corrections` when `write_tests` is reached. -/
-def updateEntries (orc : Oracle) : List Entry → List Correction → Option (List Correction)
+def updateEntries (fx : Fixes) (orc : Oracle) : List Entry → List Correction → Option (List Correction)
   | [], acc => some acc
   | e :: es, acc =>
-    match updateEntry orc e with
-    | .cont cs => updateEntries orc es (acc ++ cs)
+    match updateEntry fx orc e with
+    | .cont cs => updateEntries fx orc es (acc ++ cs)
     | .stop => none
     | .err => none
 
 /-- `tree-sitter test --update` on one corpus file: the file's content afterwards. -/
-def updateFile (os : Str) (orc : Oracle) (content : Str) : Str :=
+def updateFile (fx : Fixes) (os : Str) (orc : Oracle) (content : Str) : Str :=
   match parseFile os content with
   | [] => content                     -- `children.is_empty()` → nothing is written
-  | es => match updateEntries orc es [] with
+  | es => match updateEntries fx orc es [] with
     | none => content
-    | some cs => writeTests cs
+    | some cs =>
+      if fx.keepSuffixPreamble then
+        preamble os content ++ writeTests ((firstSuffix (splitIncl content)).getD []) cs
+      else writeTests [] cs
 
 end TsVerif.C20
